@@ -466,6 +466,24 @@ def fam_resistive(ctx):
                            lambda mk=mk: (
                                mk().diameter_effective_resistance(),
                                mk().average_effective_resistance()))
+        # a dense symmetrised matrix as it comes (diagonal entries included:
+        # the constructor accepts them)
+        if n >= 2:
+            Rd = r.uniform(0.5, 5, (n, n))
+            Rd = Rd + Rd.T
+            for kind, RR in (("f64", Rd), ("f32", Rd.astype(np.float32))):
+                def mkd(RR=RR):
+                    return ResNetwork(RR, silence_level=3)
+                tag = f"n={n},dense-with-diagonal,{kind}"
+                yield (f"ResNetwork.vertex_current_flow_betweenness|{tag}",
+                       lambda mkd=mkd, n=n: [
+                           mkd().vertex_current_flow_betweenness(i)
+                           for i in range(min(n, 4))])
+                yield (f"ResNetwork.edge_current_flow_betweenness|{tag}",
+                       lambda mkd=mkd: mkd().edge_current_flow_betweenness())
+                yield (f"ResNetwork.effective_resistance|{tag}",
+                       lambda mkd=mkd, n=n: [mkd().effective_resistance(0, j)
+                                             for j in range(n)])
 
 
 def _series(ctx, tag, lens=None, dims=(1, 2, 3)):
@@ -617,6 +635,16 @@ def fam_crp_jrp(ctx):
                                     c.cross_recurrence_rate(),
                                     c.distance_matrix(metric).shape)
                         yield f"CrossRecurrencePlot.__init__|{tag}", t
+                        if mode.get("threshold") and not emb and \
+                                metric == "supremum":
+                            def tw(x=x, y=y, metric=metric):
+                                c = CRP(x, y, metric=metric, threshold=0.8,
+                                        silence_level=3)
+                                a = c.twins(min_dist=1)
+                                b = c.twin_surrogates(n_surrogates=2,
+                                                      min_dist=1)
+                                return len(a), np.shape(b)
+                            yield (f"CrossRecurrencePlot.twins|{tag}", tw)
             if Tx == Ty:
                 for lag in (0, 1, -1, 2, Tx, -Tx, Tx + 3):
                     for mode in (dict(threshold=(0.8, 0.9)),
@@ -816,6 +844,18 @@ def fam_funcnet(ctx):
                                    mk().information_transfer(
                                        tau_max=tau, estimator="knn",
                                        knn=knn, past=1))
+                # more conditions (rows of the kNN array): longer pasts in
+                # both condition modes
+                if tau >= 1 and kind == "f64" and T - tau > 8 and N >= 2:
+                    for cm, past in (("ity", 2), ("ity", 3), ("mit", 1),
+                                     ("mit", 2), ("mit", 3)):
+                        if T - tau - past > 6:
+                            yield (f"CouplingAnalysis.information_transfer|"
+                                   f"knn=2,{cm},past={past},tau={tau},{tag}",
+                                   lambda mk=mk, tau=tau, cm=cm, past=past:
+                                   mk().information_transfer(
+                                       tau_max=tau, estimator="knn", knn=2,
+                                       past=past, cond_mode=cm))
                 if tau >= 1:
                     for cm in ("ity", "mit"):
                         yield (f"CouplingAnalysis.information_transfer|gauss,"
@@ -824,6 +864,18 @@ def fam_funcnet(ctx):
                                mk().information_transfer(
                                    tau_max=tau, estimator="gauss",
                                    cond_mode=cm))
+    # the kNN helper itself with 2 .. 9 rows (X, Y and up to seven conditions)
+    for rows, Tn in itertools.product((2, 3, 4, 5, 6, 9), (12, 40)):
+        arr = r.normal(size=(rows, Tn))
+        for nx in (1, 2):
+            if rows - nx - 1 < 0:
+                continue
+            xyz = np.array([0] * nx + [1] + [2] * (rows - nx - 1))
+            yield (f"CouplingAnalysis.get_nearest_neighbors|rows={rows},"
+                   f"T={Tn},nx={nx}",
+                   lambda arr=arr, xyz=xyz: [np.shape(v) for v in
+                                             CA.get_nearest_neighbors(
+                                                 arr.copy(), xyz, 3)])
     for N in (0, 1, 2, 4):
         for dt in (np.float32, np.float64, np.int64):
             S = (r.normal(size=(N, N))).astype(dt)
